@@ -41,8 +41,37 @@ def configs(tier):
         out.append(dict(c, fork='pickle'))
         # a user subclass whose get_data hands out copies of the lists (the law is about the object's own content)
         out.append(dict(c, sub=True))
+    # streams whose observations repeat in VALUE (distinct dict objects with equal content, told apart by identity): the
+    # law is about arrivals, not about values
+    for c in list(out):
+        if c['k'] in (2, 3) and c['p'] in ('default', Fraction(1, 2), Fraction(1)) and not any(
+                c.get(f) for f in ('neigh', 'fork', 'sub')) \
+                and c['M'] == min(x['M'] for x in out if x['k'] == c['k'] and x['p'] == c['p']):
+            out.append(dict(c, dup=True))
     out.sort(key=lambda c: -(c['M'] * (1 + c['pv'] * (c['k'] - 1))) ** (c['n'] - c['k']))
     return out
+
+
+class Untrackable(Exception):
+    pass
+
+
+def new_obs(cfg, t, reg):
+    if not cfg.get('dup'):
+        return {'id': t}
+    x = {'v': t % 2, 'w': 0}
+    reg[id(x)] = t
+    reg.setdefault('keep', []).append(x)       # keeps the object alive: its id is not reused
+    return x
+
+
+def ids_of(cfg, rows, reg):
+    if not cfg.get('dup'):
+        return tuple(x['id'] for x in rows)
+    try:
+        return tuple(reg[id(x)] for x in rows)
+    except KeyError:
+        raise Untrackable()     # the storage holds copies: equal-valued arrivals cannot be told apart from outside
 
 
 _SUB = {}
@@ -143,9 +172,10 @@ def approx_probs(kind, cfg, base, cap=None):
     def driver(run):
         if kind == 'impl':
             s = make(cfg)
+            reg = {}
             for t in range(1, n + 1):
-                s.update({'id': t}, FALSY[t % len(FALSY)])
-            return tuple(x['id'] for x in list(s.get_data()[0]))
+                s.update(new_obs(cfg, t, reg), FALSY[t % len(FALSY)])
+            return ids_of(cfg, list(s.get_data()[0]), reg)
         s = {'coin': RefCoin, 'gap': RefGap, 'one': RefOneDraw}[kind](k, pv)
         for t in range(1, n + 1):
             s.update(t)
@@ -192,8 +222,9 @@ def driver_for(cfg):
         s = make(cfg)
         hist = []
         keep = None
+        reg = {}
         for t in range(1, n + 1):
-            s.update({'id': t}, FALSY[t % len(FALSY)])       # targets incl. falsy ones: the law must not depend on y
+            s.update(new_obs(cfg, t, reg), FALSY[t % len(FALSY)])       # targets incl. falsy ones: the law must not depend on y
             if cfg.get('neigh') and t == k:
                 from checks.c08 import build_neighbours
                 keep = build_neighbours()
@@ -201,7 +232,10 @@ def driver_for(cfg):
                 cp = choice.safe_copy(s, cfg['fork'])
                 if cp is not None:
                     keep, s = s, cp
-            ids = tuple(x['id'] for x in list(s.get_data()[0]))
+            try:
+                ids = ids_of(cfg, list(s.get_data()[0]), reg)
+            except Untrackable:
+                return None
             if cfg['pv'] == 1 and t not in ids:
                 raise Violation("C09/p1-newest-not-stored",
                                 f"GeometricReservoirStorage(size={k}, constant_probability={cfg['p']!r}): "
@@ -236,9 +270,14 @@ def run_config(cfg):
             edges.add((prev, ids))
             prev = ids
 
+    untrackable = [False]
+
     def on_leaf(run, hist):
         w = run.weight
         tot[0] += w
+        if hist is None:
+            untrackable[0] = True
+            return
         if run.reseeded:
             reseeds.update(run.reseeded)
         leaves.append((run.world, (hist, w)))
@@ -266,8 +305,13 @@ def run_config(cfg):
     desc = f"GeometricReservoirStorage(size={k}, constant_probability={cfg['p']!r})" + \
         (" while other library objects are constructed after observation k" if cfg.get('neigh') else "") + \
         (f" continued on a {cfg['fork']} copy taken after k-1 observations" if cfg.get('fork') else "") + \
-        (" (user subclass whose get_data returns copies of the lists)" if cfg.get('sub') else "")
+        (" (user subclass whose get_data returns copies of the lists)" if cfg.get('sub') else "") + \
+        (" on a stream of equal-valued observations (distinct objects, told apart by identity)" if cfg.get('dup') else "")
     worlds = False
+    if untrackable[0]:
+        # the storage keeps copies of the observations: arrivals of equal value are indistinguishable from outside
+        return dict(cfg=cfg, executions=st.executions, violations=viol, states=states, edges=edges, nontrivial=0,
+                    sample={'k': k, 'p': str(cfg['p']), 'mode': 'skipped: storage holds copies, equal-valued arrivals untrackable'})
     if not viol and any(w for w, _ in leaves):
         # the library re-seeded a global generator: later draws are a fixed function of the seed; the law must hold for
         # every fixed answer sequence (over the remaining, genuinely random draws)
